@@ -532,7 +532,19 @@ def polygon_rules(repo, res, RULE="G1-SHAPE-AGREE"):
             return ring(inner) or polygon_of_ring(inner)
         return False
 
+    partial = []
+
+    def whole(v):
+        """v, or v without a slice that takes only part of it (noted in `partial`)"""
+        if isinstance(v, Ctor) and v.name == ".slice" and ring(v.args.get("of")):
+            if not (v.args.get("lo") is NONE and v.args.get("hi") is NONE):
+                partial.append("vertices[%s:%s]" % ("" if v.args.get("lo") is NONE else show(v.args.get("lo")), "" if v.args.get("hi") is NONE else show(v.args.get("hi"))))
+            return v.args.get("of")
+        return v
+
     def corner(v):
+        if isinstance(v, Ctor) and v.name in ("numpy.min", "numpy.amin", "numpy.max", "numpy.amax", ".min()", ".max()") and v.args:
+            v = Ctor(v.name, dict(v.args, **{list(v.args)[0]: whole(list(v.args.values())[0])}), kind="call")
         if isinstance(v, Ctor) and v.name in ("numpy.min", "numpy.amin", "numpy.max", "numpy.amax", ".min()", ".max()") and ring(list(v.args.values())[0]):
             rest = [x for k, x in list(v.args.items())[1:]]
             if rest == [0]:
@@ -615,12 +627,89 @@ def polygon_rules(repo, res, RULE="G1-SHAPE-AGREE"):
             ev.model_calls[".%s()" % nm] = predicate(truth)
         bad = None
         try:
+            del partial[:]
             r = ev.call_fn(ev.bind(cp, poly, o), [P], {}, cp)
             got = ev.truth(r, cp)
-            if got is not want:
+            if partial:
+                bad = "pre-filters with the bounding box of %s, a part of the vertices: a vertex of a ring given open is left out of the box" % partial[0]
+            elif got is not want:
                 bad = "answers %s, the closed ring %s it" % (got, "contains" if want else "does not contain")
         except _Raise as x:
             bad = "raises %s" % x.what
         except Undecided as x:
             raise AnalysisError("Polygon.contains_point [%s]: %s" % (label, x))
         res.check(RULE, "Polygon.contains_point [%s]: the answer of the closed vertex ring" % label, bad is None, poly.mod, cp, "Polygon.contains_point [%s] %s" % (label, bad), "the containment predicate and the exported geometry of a polygon do not denote the same set (a bounding-box pre-filter that is not the box of the vertices, or an open predicate)", qualname="Polygon.contains_point")
+
+
+# --------------------------------------------------------------------------- the lanelet polygon
+def lanelet_polygon_rule(repo, res, RULE="G2-INDEX"):
+    """Wherever a Lanelet (re)builds its polygon — constructor, translate_rotate, convert_to_2d — the polygon it holds
+    afterwards is Polygon(concatenate(right boundary, reversed left boundary)) of the boundaries it holds *then*."""
+    lan = repo.cls(LA, "Lanelet")
+
+    def array(label):
+        return Ctor("numpy.array", {"arg0": Sym(label, "num")}, kind="call")
+
+    def judge(me):
+        p = me.fields.get("_polygon")
+        R, L = me.fields.get("_right_vertices"), me.fields.get("_left_vertices")
+        if not (isinstance(p, Ctor) and p.name == "Polygon" and len(p.args) == 1):
+            return "the polygon is %s" % show(p)
+        c = list(p.args.values())[0]
+        if not (isinstance(c, Ctor) and c.name in ("numpy.concatenate", "numpy.vstack", "numpy.row_stack") and c.args):
+            return "the polygon is built from %s" % show(c)
+        parts = list(c.args.values())[0]
+        items = parts.items if isinstance(parts, ListV) else None
+        if items is None or len(items) != 2:
+            return "the polygon ring is %s" % show(parts)
+        first, second = items
+        if first is not R:
+            return "the ring starts with %s, not with the right boundary the lanelet holds" % show(first)
+        rev = None
+        if isinstance(second, Ctor) and second.name in ("numpy.flip", "numpy.flipud") and list(second.args.values())[0] is L:
+            ax = second.args.get("axis", second.args.get("arg1", 0 if second.name == "numpy.flipud" else NONE))
+            rev = ax in (0,)
+        elif isinstance(second, Ctor) and second.name == ".slice" and second.args.get("of") is L:
+            rev = second.args.get("lo") is NONE and second.args.get("hi") is NONE and second.args.get("step") == -1
+        if not rev:
+            return "the ring continues with %s, not with the reversed left boundary the lanelet holds" % show(second)
+        return None
+
+    def world():
+        f = {"_left_vertices": array("left"), "_center_vertices": array("center"), "_right_vertices": array("right"), "_lanelet_id": 7, "_stop_line": NONE, "_distance": NONE, "_inner_distance": NONE, "_polygon": Obj(None, {}, closed=True, label="old polygon")}
+        return Obj(lan, f, label="lanelet")
+
+    routes = []
+    init = lan.methods.get("__init__")
+    if init is None:
+        raise AnalysisError("Lanelet.__init__ missing")
+    routes.append(("__init__", init, None))
+    for mn in ("translate_rotate", "convert_to_2d"):
+        fn = lan.methods.get(mn)
+        if fn is None:
+            raise AnalysisError("Lanelet.%s missing" % mn)
+        routes.append((mn, fn, mn))
+    for label, fn, mn in routes:
+        ev = evaluator(repo)
+        ev.stubs.pop("Lanelet.translate_rotate", None)
+        ev.assume_valid = True
+        ev.pure_modules |= {"commonroad", "warnings"}
+        qn = "Lanelet.%s" % label
+        bad = None
+        try:
+            if mn is None:
+                ev.instantiate = {"Lanelet"}
+                me = ev.apply(ClassRef(lan), [array("left"), array("center"), array("right"), 7], {}, lan.node, lan.mod)
+            else:
+                me = world()
+                args = [Sym("translation", "num"), Sym("angle", "num")] if mn == "translate_rotate" else []
+                before = (me.fields["_left_vertices"], me.fields["_right_vertices"])
+                ev.call_fn(ev.bind(fn, lan, me), args, {}, fn)
+                if mn == "translate_rotate" and (me.fields["_left_vertices"] is before[0] or me.fields["_right_vertices"] is before[1]):
+                    raise Undecided("the boundaries are not replaced by translate_rotate")
+            bad = judge(me)
+        except _Raise as x:
+            bad = "raises %s" % x.what
+        except Undecided as x:
+            raise AnalysisError("%s: %s" % (qn, x))
+        res.check(RULE, "%s: polygon = right boundary + reversed left boundary, as held afterwards" % qn, bad is None, lan.mod, fn, "%s: %s" % (qn, bad), "the lanelet polygon is not the ring right boundary followed by the reversed left boundary of the lanelet as it is now (self-intersecting, wrong area, or stale)", qualname=qn)
